@@ -708,6 +708,22 @@ pub fn gen_wire(seed: u64, tier: &Tier, shard: usize, nshards: usize, emit: &mut
             let m = stream_message(tag, if tag == 1 { Some(&dg) } else { None }, &bytes, 16384);
             emit(plist("datagram", ["0".to_string(), hex(&m), plist("ops", pool.iter())]));
         }
+        // a hostile but decodable pair of deltas: the second one starts one version below the copy's
+        // max version and carries another key at exactly that version, then a newer one
+        {
+            let who = node_id(2 + (i % 2) as u16);
+            let v = rng.range(1, 6);
+            let dg = plist("dg", [plist("d", [p_id(&who), rng.range(1, 9).to_string(), "0".to_string(), "0".to_string()])]);
+            emit(plist("msg", ["0".to_string(), plist("synack", [dg, "(delta 1 ())".to_string()])]));
+            let kv = |k: &str, ver: u64| p_kvm(&VKv { key: k.to_string(), value: "h".to_string(), version: ver, status: 0 });
+            let nd1 = plist("nd", [p_id(&who), "0".to_string(), "0".to_string(), v.to_string(), plist("", [kv("ha", v)])]);
+            emit(plist("msg", ["0".to_string(), plist("ack", [plist("delta", ["1".to_string(), plist("", [nd1])])])]));
+            let nd2 = plist("nd", [p_id(&who), (v - 1).to_string(), "0".to_string(), (v + 1).to_string(), plist("", [kv("hb", v), kv("hc", v + 1)])]);
+            emit(plist("msg", ["0".to_string(), plist("ack", [plist("delta", ["1".to_string(), plist("", [nd2])])])]));
+        }
+        // whatever the datagrams above left in the node's copies, it can still answer a peer that
+        // knows nothing (the whole state goes through the delta serializer and its assertions)
+        emit(plist("msg", ["0".to_string(), plist("syn", [hex(b"c"), "(dg)".to_string()])]));
     }
 }
 
@@ -997,6 +1013,10 @@ pub fn gen_cluster(seed: u64, tier: &Tier, shard: usize, nshards: usize, emit: &
         for k in 0..n {
             let cluster = if two_clusters && k % 2 == 1 { ["c2", "", "C", "c"][rng.below(3) as usize] } else { "c" };
             emit(new_cmd(k, &node_id(k as u16 + 1), cluster, grace, &fd, &pred, &[("boot", "1")]));
+            if rng.chance(1, 3) {
+                // nobody holds a receiver of this node's live-members channel between two reads
+                emit(format!("(watchmode {k} fresh)"));
+            }
         }
         let keys = ["a", "b", "ready", "drain", "a/x", ""];
         let steps = if tier.thorough { rng.range(20, 160) } else { rng.range(10, 70) };
